@@ -734,7 +734,7 @@ def check(run: lib.Run, audit: dict) -> int:
     check_instants(run, mod)
     check_concurrent(run, mod)
     check_midcall(run, mod)
-    check_histories(run, mod)
+    check_histories(run, mod, scale=run.boost)
     if (run.disagreements or not ok) and not run.spec_failures:
         # a proof obligation or the correspondence broke: widen the search for a failing input on the real code
         check_faults(run, mod, program, wide=True)
